@@ -621,3 +621,6 @@ func fixEmptyLists(n *m.Node) {
 }
 
 var _ = math.MaxInt64
+
+func evalDump(e *eval.Expr) string      { return eval.Dump(e) }
+func evalDumpTable(e *eval.Expr) string { return eval.DumpTable(e, true) }
